@@ -14,7 +14,12 @@ Clause ids (`what`) - operation sequences:
   first_offset, last_offset, first_last_offset, hold_head_tail_offset, sorted, append_<form>,
   after, before, between, hold_after, hold_before, hold_between, result_class, no_exception_<kind>,
   receiver_unchanged (the list an operation is called on still holds the same row sequence afterwards),
-  append_operand_unchanged
+  append_operand_unchanged,
+  inplace_edit_takes_effect, no_exception_set (operation `set`: the SAME list object is edited in place between two
+  observations - through the documented list property of a field whose name is taken from the list's own columns
+  (`L.offset = [...]`, `L.bpm += d`, a numpy array) or by assigning a new frame (`L.df = ...`); a plain sequence whose
+  rows were given those values is what every later observation is compared with), queries_repeatable (the same
+  observations made a second time on the same object give the same answers)
 Clause ids - constructors:
   empty_exact_fields (suspected F7: extra `index` column), empty_n_rows, empty_defaults,
   empty_list_default_not_nan (suspected F8), empty_list_exact_fields, from_items_exact_fields, from_items_rows,
@@ -273,6 +278,8 @@ def _num(x):
     """JSON-able number of an op -> the value handed to the library: python float / int, or a numpy scalar for
     {"np": "float64" | "int64" | "float32", "v": value}"""
     if isinstance(x, dict):
+        if "inf" in x:
+            return x["inf"] * math.inf
         import numpy as np
 
         return getattr(np, x["np"])(x["v"])
@@ -281,6 +288,8 @@ def _num(x):
 
 def _pl(x):
     """... and the plain python number the oracle compares with"""
+    if isinstance(x, dict) and "inf" in x:
+        return x["inf"] * math.inf
     return x["v"] if isinstance(x, dict) else x
 
 
@@ -289,6 +298,8 @@ def _apply(L, rows, op, cls):
     -> (L', rows', failures [(what, detail)]); L' None when the real call raised.
     Also: the receiver (and the operand of append) must hold the same row sequence after the call as before
     (a plain sequence is not changed by slicing, sorted(), +, or a filter)."""
+    if op[0] == "set":
+        return _apply_set(L, rows, op, cls)
     before = _cells(L)
     L2, rows2, fails = _apply0(L, rows, op, cls)
     try:
@@ -298,6 +309,60 @@ def _apply(L, rows, op, cls):
     except Exception as ex:  # noqa
         fails = fails + [("receiver_unchanged", f"{op}: reading the receiver after the call raised {type(ex).__name__}: {ex}")]
     return L2, rows2, fails
+
+
+def _apply_set(L, rows, op, cls):
+    """op = ["set", field, route, k]: a legitimate IN-PLACE change of the list object between two observations.
+    The field is `offset` / `length` by name or the (number mod n)-th of the names the list's own frame carries (names from
+    the data); fields whose values are lists / bytes, and names the list does not have or the class does not declare, are
+    replaced by `offset`.  Routes:
+      prop   L.<name> = [values]           (the documented list property)
+      numpy  L.<name> = numpy.array(values)
+      iadd   L.<name> += d                 (numeric fields; others as prop)
+      df     L.df = <new frame with that column replaced>
+    -> (L, rows', failures): the same object, and the plain rows with those values."""
+    import numpy as np
+
+    _, fi, route, k = op
+    decl = _declared(cls)
+    try:
+        cols = [str(c) for c in L.df.columns]
+        name = fi if isinstance(fi, str) else cols[fi % len(cols)] if cols else "offset"
+        dt, dv = decl.get(name, (None, None))
+        if name not in decl or isinstance(dv, (list, dict, set)) or dt == "b" or not (dt in ("int", "float", "bool") or isinstance(dv, str)) or name not in cols:
+            name = "offset"
+            dt, dv = decl[name]
+        cur = [r.get(name) for r in rows]
+        n = len(rows)
+        numeric = dt in ("int", "float") and all(isinstance(v, (int, float)) and not isinstance(v, bool) and not _isnan(v) for v in cur)
+        ints = numeric and n > 0 and all(isinstance(v, int) for v in cur)
+        if route == "iadd" and numeric:
+            d = 25 if ints else 7.5
+            new = [v + d for v in cur]
+            setattr(L, name, getattr(L, name) + d)          # what `L.<name> += d` does
+        else:
+            if name in ("offset", "length"):
+                # descending times (the row order is no longer the time order) / lengths incl. 0, dyadic
+                new = [(1000 - 13 * ((i + k) % 5) if ints else 1000.0 - 12.5 * ((i + k) % 5)) if name == "offset" else ((i + k) % 3 * 40 if ints else (i + k) % 3 * 40.5) for i in range(n)]
+            else:
+                new = [_value(name, dt, dv, k + i + 13) for i in range(n)]
+            if route == "df":
+                L.df = L.df.assign(**{name: new})
+            elif route == "numpy" and dt in ("int", "float", "bool"):
+                setattr(L, name, np.array(new))
+            else:
+                setattr(L, name, list(new))
+    except Exception as ex:  # noqa
+        return None, rows, [("no_exception_set", f"{op} raised {type(ex).__name__}: {ex}")]
+    rows2 = [dict(r, **{name: v}) for r, v in zip(rows, new)]
+    fails = []
+    try:
+        g = _rows_of(L)
+        if not _rows_eq(g, rows2):
+            fails.append(("inplace_edit_takes_effect", f"{op}: after setting field {name!r} to {new[:6]} ({route}) the list holds {_show(g)}, the plain sequence {_show(rows2)}"))
+    except Exception as ex:  # noqa
+        fails.append(("inplace_edit_takes_effect", f"{op}: reading the list after the edit raised {type(ex).__name__}: {ex}"))
+    return L, rows2, fails
 
 
 def _cells(L):
@@ -532,7 +597,9 @@ ENDS = [[True, False], [False, True], [True, True], [False, False], True, False,
 
 # added: bounds given as python int / numpy scalars (the same numbers as above, so that they sit on rows), a very large bound
 NP50, NP100, NPI0 = {"np": "float64", "v": 50.0}, {"np": "float32", "v": 100.0}, {"np": "int64", "v": 0}
-TYPED_BOUNDS = [50, 0, NP50, NP100, NPI0, 1000000000.5]
+INF_POS, INF_NEG = {"inf": 1}, {"inf": -1}   # the extremes of a float bound: after(-inf) keeps every row, after(+inf) none
+TYPED_BOUNDS = [50, 0, NP50, NP100, NPI0, 1000000000.5, INF_POS, INF_NEG]
+SET_ROUTES = ["prop", "iadd", "df", "numpy"]
 
 
 def _instances(kind, hold):
@@ -556,7 +623,7 @@ def _instances(kind, hold):
         return out
     if kind == "between":
         spans = [(0.0, 100.0), (50.0, 50.0), (100.0, 0.0), (-0.75, 250.25)]
-        typed = [(0, 100), (NPI0, NP100), (NP50, 50), (-1000000000.25, 1000000000.5)]
+        typed = [(0, 100), (NPI0, NP100), (NP50, 50), (-1000000000.25, 1000000000.5), (INF_NEG, INF_POS), (INF_NEG, 50.0), (0.0, INF_POS)]
         out = []
         if not hold:
             out = [["between", lo, hi, e, None, None] for lo, hi in spans for e in ENDS]
@@ -569,6 +636,9 @@ def _instances(kind, hold):
             out += [["between", lo, hi, e, None, None] for lo, hi in typed for e in ENDS[:4]]
             out += [["between", lo, hi, e, h, t, "kw"] for lo, hi in (spans[0], typed[1]) for e in ENDS[:4] + [None] for h in (False, True) for t in (False, True)]
         return out
+    if kind == "set":
+        # `offset` / `length` (what every observation depends on) by name; the numbers reach every field name the frame carries
+        return [["set", fi, route, k] for fi in ("offset", "offset", "offset", "length", 0, 1, 2, 3, 4, 5, 6, 7) for route in SET_ROUTES for k in (0, 1)]
     raise ValueError(kind)
 
 
@@ -595,7 +665,13 @@ def _run_case(case):
         # again under the clauses of the later steps
         L, rows = L2, (_rows_of(L2) if fails else rows2)
         if k == len(case["ops"]) - 1 or case.get("queries_every_step"):
-            failed += [(w, f"after step {k + 1}: {d}", k + 1) for w, d in _queries(L, rows, cls)]
+            first = _queries(L, rows, cls)
+            failed += [(w, f"after step {k + 1}: {d}", k + 1) for w, d in first]
+            if case.get("queries_twice") and k == len(case["ops"]) - 1:
+                # the same object observed a second time: the same answers (nothing above changes the list)
+                second = _queries(L, rows, cls)
+                if [w for w, _ in second] != [w for w, _ in first]:
+                    failed.append(("queries_repeatable", f"after step {k + 1}: the first round of observations failed {[w for w, _ in first]}, the second round on the same object {[(w, d) for w, d in second][:3]}", k + 1))
     seen, uniq = set(), []
     for w, d, k in failed:
         if w not in seen:
@@ -633,16 +709,23 @@ def _sequences(rng, hold, tier, light=False):
     thorough: every parameterised instance alone, every pair of core instances, every sequence of kinds of length 3
               (two seeded parameter draws each)
     light (the added contents): every kind alone (2 / 6 draws) + 30 / 400 seeded sequences of length 2-3"""
-    inst = {k: _instances(k, hold) for k in KINDS}
+    inst = {k: _instances(k, hold) for k in KINDS + ["set"]}
+    kinds_set = KINDS + ["set", "set"]          # the seeded sequences also draw in-place edits (2 / 8 of the steps)
     yield []
     if light:
         for a in KINDS:
             for _ in range(2 if tier == "quick" else 6):
                 yield [rng.choice(inst[a])]
+        for a in rng.sample(KINDS, 3) if tier == "quick" else KINDS:
+            yield [rng.choice(inst[a]), rng.choice(inst["set"]), rng.choice(inst[a])]
         for _ in range(30 if tier == "quick" else 400):
-            yield [rng.choice(inst[rng.choice(KINDS)]) for _ in range(rng.choice((2, 3)))]
+            yield [rng.choice(inst[rng.choice(kinds_set)]) for _ in range(rng.choice((2, 3)))]
         return
     if tier == "quick":
+        # observe - edit the same object in place - observe again: every kind before and after an edit
+        for a in KINDS:
+            yield [rng.choice(inst[a]), rng.choice(inst["set"]), rng.choice(inst[a])]
+            yield [rng.choice(inst["set"]), rng.choice(inst[a])]
         for a in KINDS:
             for _ in range(2):
                 yield [rng.choice(inst[a])]
@@ -650,8 +733,16 @@ def _sequences(rng, hold, tier, light=False):
                 for _ in range(2):
                     yield [rng.choice(inst[a]), rng.choice(inst[b])]
         for _ in range(40):
-            yield [rng.choice(inst[rng.choice(KINDS)]) for _ in range(3)]
+            yield [rng.choice(inst[rng.choice(kinds_set)]) for _ in range(3)]
     else:
+        for a in inst["set"]:
+            yield [a]
+            b = rng.choice(KINDS)
+            yield [rng.choice(inst[b]), a, rng.choice(inst[b])]
+        for a in KINDS:
+            for b in KINDS:
+                yield [rng.choice(inst[a]), rng.choice(inst["set"]), rng.choice(inst[b])]
+                yield [rng.choice(inst["set"]), rng.choice(inst[a]), rng.choice(inst["set"]), rng.choice(inst[b])]
         for k in KINDS:
             for a in inst[k]:
                 yield [a]
@@ -677,6 +768,9 @@ def _ops_for_game(game):
             + ("every sequence of operation kinds of length <= 2 over {slice, sorted, append, after, before, between} (2 seeded parameter draws each) + 40 seeded sequences of length 3 per (class, content)"
                if rep.tier == "quick" else
                "every parameterised operation alone, every pair of core parameterised operations, every sequence of kinds of length 3 (2 seeded parameter draws each) per (class, content)")
+            + "; in-place edits of the SAME list object between observations (quick: every kind before and after one, and 2 in 8 steps of the seeded sequences; thorough: every edit instance alone and between two operations, every pair of kinds around one): "
+            f"a field named by the list's own columns set through its list property (list / numpy array / += d) or by assigning a new frame (routes {SET_ROUTES}), new offsets in descending order; bounds +inf / -inf; "
+            "every 5th sequence: all observations a second time on the final object"
             + "; after EVERY step: len, [i] for first/second/middle/last/negative/out-of-range i, iteration, first/last/first_last offset, hold head/tail; "
             "after EVERY operation: the receiver (and the operand of append) still holds the row sequence it held before the call"
         )
@@ -700,6 +794,8 @@ def _ops_for_game(game):
                     break
                 g[3] += 1
                 case = dict(cls=_cls_id(cls), content=content, build=BUILDS[(k + len(content)) % len(BUILDS)], ops=ops, queries_every_step=True)
+                if ops and k % 5 == 0:
+                    case["queries_twice"] = True
                 rep.case(case, nontrivial=bool(ops) and content != "empty")
                 for what, d, step in _run_case(case):
                     short = dict(case, ops=ops[:step]) if step else case
